@@ -33,6 +33,39 @@ class _Dataset:
         r = self.data[key]
         return r.copy() if isinstance(r, np.ndarray) else r
 
+    def __len__(self):
+        return self.shape[0]
+
+    @property
+    def dtype(self):
+        return self.data.dtype
+
+    @property
+    def ndim(self):
+        return self.data.ndim
+
+    def read_direct(self, dest, source_sel=None, dest_sel=None):
+        """h5py contract: reads straight into `dest`, which must be a C-contiguous writable array
+        (h5py raises TypeError otherwise); selections default to everything"""
+        if not isinstance(dest, np.ndarray) or not dest.flags.c_contiguous or not dest.flags.writeable:
+            raise TypeError("Array must be C-contiguous and writable")
+        src = self.data if source_sel is None else self.data[source_sel]
+        if dest_sel is None:
+            if np.shape(src) != dest.shape:
+                raise TypeError(f"Can't broadcast {np.shape(src)} -> {dest.shape}")
+            dest[...] = src
+        else:
+            dest[dest_sel] = src
+
+    def write_direct(self, source, source_sel=None, dest_sel=None):
+        if not isinstance(source, np.ndarray) or not source.flags.c_contiguous:
+            raise TypeError("Array must be C-contiguous")
+        src = source if source_sel is None else source[source_sel]
+        if dest_sel is None:
+            self.data[...] = src
+        else:
+            self.data[dest_sel] = src
+
 
 class _Group:
     def __init__(self):
@@ -180,6 +213,7 @@ def _layouts():
         out.append(dict(dim=dim, nmark=4, variant="same_field_name_on_two_grids"))
         out.append(dict(dim=dim, nmark=4, variant="eulerian_only"))
         out.append(dict(dim=dim, nmark=4, variant="non_contiguous_views"))
+        out.append(dict(dim=dim, nmark=3, variant="fortran_ordered_arrays"))
     return out
 
 
@@ -190,6 +224,8 @@ def build(io, dim, nmark, variant, tag):
     io.define_eulerian_grid(origin=np.array([0.25] * dim), dx=np.array([0.5] * dim), grid_size=np.array(grid))
     reg["eul"]["vorticity"] = tokens(f"{tag}_vorticity", grid)
     reg["eul"]["velocity"] = tokens(f"{tag}_velocity", (dim,) + grid)
+    if variant == "fortran_ordered_arrays":  # freshly allocated column-major arrays (np.zeros(shape, order="F"))
+        reg["eul"] = {k: np.asfortranarray(v) for k, v in reg["eul"].items()}
     io.add_as_eulerian_fields_for_io(**reg["eul"])
     if variant == "eulerian_only":
         return reg
@@ -198,6 +234,8 @@ def build(io, dim, nmark, variant, tag):
         n = nmark + gi
         if variant == "non_contiguous_views":  # (dim, N) views of marker-major / strided storage
             reg["grids"][g] = tokens(f"{tag}_{g}_grid", (n, dim)).T
+        elif variant == "fortran_ordered_arrays":
+            reg["grids"][g] = np.asfortranarray(tokens(f"{tag}_{g}_grid", (dim, n)))
         else:
             reg["grids"][g] = tokens(f"{tag}_{g}_grid", (dim, n))
         fields = {}
@@ -208,6 +246,8 @@ def build(io, dim, nmark, variant, tag):
             else:
                 fields[f"force{sfx}"] = tokens(f"{tag}_{g}_force", (dim, n))
             fields[f"pressure{sfx}"] = tokens(f"{tag}_{g}_pressure", (n,))
+            if variant == "fortran_ordered_arrays":
+                fields = {k: np.asfortranarray(v) for k, v in fields.items()}
         reg["lag"][g] = fields
         io.add_as_lagrangian_fields_for_io(lagrangian_grid=reg["grids"][g], lagrangian_grid_name=g, **fields)
     return reg
@@ -216,7 +256,8 @@ def build(io, dim, nmark, variant, tag):
 @unit("io_round_trip", props=("C17",), configs=_layouts(), kernels=False,
       assumes=("h5py contract: datasets / attrs store verbatim copies, visit() enumerates all paths (svx stub)",
                "layouts bounded: dim 2/3, grids 3x4 / 2x3x4, marker counts 1..5 incl. N == dim, 1-2 Lagrangian grids, "
-               "grids without fields, equal field names on two grids; values: opaque symbols (all contents)",
+               "grids without fields, equal field names on two grids, strided views, column-major arrays; values: opaque "
+               "symbols (all contents)",
                "'origin, spacing or grid size differ' read as differing beyond numpy.allclose's default tolerance"))
 def io_round_trip(K, dim, nmark, variant):
     sym = K.mode == "sym"
